@@ -4,7 +4,9 @@ PROP = {
     "modules": ["Proofs.C08", "Proofs.C08Source"],
     "streams": [{"name": "eparse"}, {"name": "render"}, {"name": "exprs"}],
     "rule": "eparse: exhaustive token soups of length<=3/4 over 23 lexemes, grammar-generated expressions and statements "
-            "with random spacing, mutants and random soups; render: harvested test templates and grammar-generated templates "
+            "with random spacing, mutants and random soups; render: harvested test templates, 299 whole templates about times ({{ t }}, "
+            "t | date: f, date on date strings, times inside containers), every sequence of at most 3 (thorough: 4) pieces of a "
+            "31-piece tag alphabet, and grammar-generated templates "
             "with generated environments, through ParseTemplateLocation+Render; non-trivial = accepted / non-empty output",
     "trusted_base": COMMON_TB + ["the ragel/goyacc generated tables are not translated: the recursive-descent model is compared with them on every run"],
     "assumptions": [],
